@@ -7,6 +7,7 @@ and literals, plus a statement x expression grammar for the structural part.
 from __future__ import annotations
 
 import collections
+import collections.abc
 import re
 import sys
 import types
@@ -44,6 +45,9 @@ NAMES = ["_p", "__p", "__class__", "__dict__", "__init__", "__globals__", "__cod
          "co_consts"]
 MISSING_NAME = "zz_missing"
 PUBLIC_NAME = "pub"
+#: mutable containers and container subclasses that carry private state (receivers for which the immutable
+#: sandbox has its own attribute rules)
+CONTAINER_KINDS = ["list", "dict", "set", "deque", "listsub", "dictsub", "userdict", "mutablemapping"]
 KINDS = ["probe", "function", "method", "builtin", "class", "generator", "coroutine", "asyncgen", "code", "frame",
          "traceback"]
 MARK = "C17LEAK"
@@ -186,7 +190,69 @@ def mktb():
         return e.__traceback__
 
 
+class ListSub(list):
+    def __repr__(self):
+        return "<listsub>"
+
+
+class DictSub(dict):
+    def __repr__(self):
+        return "<dictsub>"
+
+
+class UserDictSub(collections.UserDict):
+    def __repr__(self):
+        return "<userdict>"
+
+
+class MapImpl(collections.abc.MutableMapping):
+    def __init__(self):
+        self.store = {}
+
+    def __getitem__(self, k):
+        return self.store[k]
+
+    def __setitem__(self, k, v):
+        self.store[k] = v
+
+    def __delitem__(self, k):
+        del self.store[k]
+
+    def __iter__(self):
+        return iter(self.store)
+
+    def __len__(self):
+        return len(self.store)
+
+    def __repr__(self):
+        return "<mapimpl>"
+
+
+def _private_state(o):
+    o.pub = Pub()
+    o._p = Tracer()
+    setattr(o, "__p", Tracer())
+    o.tag = "t"
+    return o
+
+
 def make_object(kind):
+    if kind == "list":
+        return [7, "list-item"]
+    if kind == "dict":
+        return {"key": 7}
+    if kind == "set":
+        return {7, "set-item"}
+    if kind == "deque":
+        return collections.deque([7, "deque-item"])
+    if kind == "listsub":
+        return _private_state(ListSub([7]))
+    if kind == "dictsub":
+        return _private_state(DictSub(key=7))
+    if kind == "userdict":
+        return _private_state(UserDictSub(key=7))
+    if kind == "mutablemapping":
+        return _private_state(MapImpl())
     if kind == "probe":
         return Probe("a")
     if kind == "function":
@@ -423,6 +489,9 @@ def runtime_bases():
     B = []
     for i, lit in enumerate(['""', "()", "[]", "{}", "(1)", "(1.5)", "true", "none", '(""|safe)', "(1, 2)"]):
         B.append((f"lit{i}", "", lit, ""))
+    for i, lit in enumerate(['"x"', "[1]", '{"a": 1}', "(1,)", "0", "false", '"x"|upper', "[[]][0]", '("a" ~ "b")',
+                             "(1 + 1)", '"%s"|format(1)', "[1, 2]|first", "(none, )", '{"a": []}.a']):
+        B.append((f"lit{10 + i}", "", lit, ""))
     for g in ("range", "dict", "lipsum", "cycler", "joiner", "namespace"):
         B.append((g, "", g, ""))
     B += [
@@ -459,6 +528,25 @@ RT_ROUTES = [
     ("fmt", lambda b, A: '{{ "<{0.%s}>".format(%s) }}' % (A, b), True),
     ("fmtsub", lambda b, A: '{{ "<{0[%s]}>".format(%s) }}' % (A, b), True),
     ("fmtsafe", lambda b, A: '{{ ("<{a.%s}>"|safe).format_map({"a": %s}) }}' % (A, b), True),
+    # attribute chains and non-output positions (the optimizer folds constant sub-expressions anywhere)
+    ("chain-name", lambda b, A: obs(f"{b}.{A}.__name__"), False),
+    ("chain-mro", lambda b, A: obs(f"{b}.{A}.__mro__"), False),
+    ("chain-self", lambda b, A: obs(f"{b}.{A}.__self__"), False),
+    ("chain-sub", lambda b, A: obs(f'{b}["{A}"]["__name__"]'), False),
+    ("if-eq", lambda b, A: "{%% if %s.%s.__name__ == 'list' %%}T{%% else %%}F{%% endif %%}" % (b, A), False),
+    ("if-truth", lambda b, A: "{%% if %s.%s %%}T{%% else %%}F{%% endif %%}" % (b, A), False),
+    ("set", lambda b, A: "{%% set v = %s.%s %%}%s" % (b, A, obs("v")), False),
+    ("with", lambda b, A: "{%% with v = %s.%s %%}%s{%% endwith %%}" % (b, A, obs("v")), False),
+    ("filter-arg", lambda b, A: obs(f"zz_nope|default({b}.{A})"), False),
+    ("test-defined", lambda b, A: "{{ %s.%s is defined }}|{{ %s.%s is none }}" % (b, A, b, A), False),
+    ("concat", lambda b, A: '{{ %s.%s ~ "" }}' % (b, A), False),
+    ("string", lambda b, A: "{{ %s.%s|string }}" % (b, A), False),
+    ("list-literal", lambda b, A: obs(f"[{b}.{A}]"), False),
+    ("dict-literal", lambda b, A: obs('{"k": %s.%s}' % (b, A)), False),
+    ("condexpr", lambda b, A: obs(f"{b}.{A} if true else 0"), False),
+    ("macro-default", lambda b, A: "{%% macro q(a=%s.%s) %%}%s{%% endmacro %%}{{ q() }}" % (b, A, obs("a")), False),
+    ("for-iter", lambda b, A: "{%% for v in [%s.%s] %%}%s{%% endfor %%}" % (b, A, obs("v")), False),
+    ("call-arg", lambda b, A: obs(f"dict(k={b}.{A}).k"), False),
 ]
 
 # ------------------------------------------------------------------ running one case
@@ -482,7 +570,12 @@ CONFIGS = {
     "async-strict": (True, "StrictUndefined", False),
     "async-chain": (True, "ChainableUndefined", True),
     "async-esc": (True, "Undefined", True),
+    # ImmutableSandboxedEnvironment: its is_safe_attribute override must keep the private / internal rules
+    "sync-immutable": (False, "Undefined", False, "immutable"),
+    "async-immutable": (True, "Undefined", False, "immutable"),
+    "sync-immutable-strict-esc": (False, "StrictUndefined", True, "immutable"),
 }
+IMMUTABLE_QUICK = ["sync-immutable", "async-immutable"]
 
 
 class Rec:
@@ -517,10 +610,11 @@ LIB_SOURCE = "C17LIBBODY{% macro lm() %}L{% endmacro %}{% set lv = 1 %}"
 
 def make_env(cfg, rec, cache_size=0):
     import jinja2
-    from jinja2.sandbox import SandboxedEnvironment
+    from jinja2.sandbox import ImmutableSandboxedEnvironment, SandboxedEnvironment
 
-    asy, undef, esc = CONFIGS[cfg]
-    env = SandboxedEnvironment(
+    asy, undef, esc = CONFIGS[cfg][:3]
+    cls = ImmutableSandboxedEnvironment if CONFIGS[cfg][3:] == ("immutable",) else SandboxedEnvironment
+    env = cls(
         enable_async=asy, undefined=getattr(jinja2, undef), autoescape=esc, finalize=rec.finalize,
         loader=jinja2.DictLoader({"lib": LIB_SOURCE}), cache_size=cache_size,
     )
@@ -691,7 +785,7 @@ def judge(p, cfg, rid, is_fmt, src, kind, A, extra, Fs, res, rec, touched, ctl_r
 
 
 def data_shard(arg):
-    cfg, route_ids = arg
+    cfg, route_ids, kinds = arg
     core.import_all_jinja()
     warnings.simplefilter("ignore", RuntimeWarning)  # reprs of async loop contexts create unawaited coroutines
     p = core.Part()
@@ -734,7 +828,7 @@ def data_shard(arg):
             src, extra = build(A)
             comp = compile_cfg(cfg, src)
             check_struct(p, asy, src, comp, rid)
-            for kind in KINDS:
+            for kind in kinds:
                 p.evals += 1
                 data, objs = build_data(kind, A, extra)
                 Fs = forbidden_values(objs, A)
@@ -775,17 +869,17 @@ def rt_shard(arg):
                 return pre + "{{ %s|c17cap }}" % bexpr + rfn(bexpr, name) + post
 
             csrc = build(MISSING_NAME)
-            ccomp = compile_cfg(cfg, csrc)
             for A in NAMES:
                 p.evals += 1
                 src = build(A)
-                comp = compile_cfg(cfg, src)
-                res, rec, touched, env = run_once(cfg, src, {}, comp)
-                check_struct(p, asy, src, comp, rid)
+                # no compile cache here: constant folding evaluates attribute access, filters and finalize
+                # at COMPILE time, so the recorder of the compiling environment must be the judged one
+                res, rec, touched, env = run_once(cfg, src, {})
+                check_struct(p, asy, src, compile_cfg(cfg, src), rid)
                 Fs = forbidden_values(rec.captured, A)
                 ctl_res = None
                 if Fs:
-                    ctl_res = run_once(cfg, csrc, {}, ccomp)[0]
+                    ctl_res = run_once(cfg, csrc, {})[0]
                 sig = judge(p, cfg, f"{rid}/{bid}", is_fmt, src, "runtime:" + bid, A, None, Fs, res, rec, touched, ctl_res)
                 if Fs:
                     p.count("nontrivial")
@@ -1015,13 +1109,18 @@ def run(ctx: core.Ctx):
     bids = [b[0] for b in runtime_bases()]
     n = sum(1 for _ in grammar_programs())
     step = 600
-    shards = [("data", (cfg, c)) for cfg in cfgs for c in chunks(rids, 4)]
-    shards += [("rt", (cfg, c)) for cfg in cfgs for c in chunks(bids, 3)]
+    imm = IMMUTABLE_QUICK if ctx.quick else [c for c in CONFIGS if "immutable" in c]
+    cfgs = [c for c in cfgs if "immutable" not in c]
+    shards = [("data", (cfg, c, KINDS + CONTAINER_KINDS)) for cfg in cfgs for c in chunks(rids, 4)]
+    # immutable sandbox: container receivers (its own attribute rules apply to them) plus the probe as a control
+    shards += [("data", (cfg, c, CONTAINER_KINDS + ["probe"])) for cfg in imm for c in chunks(rids, 6)]
+    cfgs_rt = cfgs + imm
+    shards += [("rt", (cfg, c)) for cfg in cfgs_rt for c in chunks(bids, 2)]
     shards += [("from", (cfg, c)) for cfg in cfgs for c in chunks([f[0] for f in FROM_FORMS], 3)]
     shards += [("grammar", (asy, lo, lo + step)) for asy in (False, True) for lo in range(0, n, step)]
     ctx.pmap(dispatch, shards)
     ctx.cov["bounds"] = {
-        "configs": cfgs, "data_routes": len(rids), "names": len(NAMES), "object_kinds": len(KINDS),
+        "configs": cfgs, "immutable_configs": imm, "container_kinds": CONTAINER_KINDS, "data_routes": len(rids), "names": len(NAMES), "object_kinds": len(KINDS),
         "from_import_forms": len(FROM_FORMS), "from_import_names": len(FROM_NAMES), "runtime_bases": len(bids), "runtime_routes": len(RT_ROUTES), "grammar_programs_per_mode": n,
     }
     unknown = {k: v for k, v in ctx.counters.items() if k.startswith("struct_unknown_name:")}
